@@ -17,6 +17,9 @@ fn lint_text(arch: Arch, info: &ArchInfo, text: &str, origin: &str, case: serde_
             rep.count("instructions_linted", stats.instructions);
             rep.count("labels_checked", stats.labels);
             rep.count("jump_tables_checked", stats.tables);
+            if problems.is_empty() {
+                rep.outcomes.insert(format!("lint-clean/{}/{}", arch.name(), if stats.tables > 0 { "with-jump-tables" } else { "no-jump-table" }));
+            }
             for pr in problems.iter().take(3) {
                 rep.outcomes.insert(format!("violation/{}", pr.kind));
                 rep.violation(format!("{}/{}", arch.name(), pr.kind), format!("{origin}: {}", pr.msg), case.clone());
@@ -103,7 +106,10 @@ fn native_accepts(nat: &mut NativeEnv, text: &str, info: &ArchInfo, origin: &str
         Ok(obj) => {
             rep.count("files_accepted_by_gnu_as", 1);
             match check_table_bytes(&obj, text, info.jump_length_1) {
-                Ok(n) => rep.count("jump_tables_verified_in_object_code", n),
+                Ok(n) => {
+                    rep.count("jump_tables_verified_in_object_code", n);
+                    rep.outcomes.insert(format!("assembled/{}", if n > 0 { "tables-read-back" } else { "no-table" }));
+                }
                 Err(e) => rep.violation("x86_64/jump-table-bytes".to_string(), format!("{origin}: {e}"), case),
             }
             nat.remove(&obj);
